@@ -63,9 +63,12 @@ Section Sleep.
     destruct (m_type m =? vt_stream (tab g)); cbn [orb]; [exists nd; auto|].
     destruct (sleeping nd0) eqn:SL; cbn [negb]; [|exists nd; auto].
     pose proof (node_id_of orc g _ _ I G0) as ID.
-    cbn [fst snd]. unfold get_node, put_node. cbn. rewrite ID, zassoc_zset.
+    cbn [fst snd]. fold (with_queue nd0 (n_queue nd0 ++ [encode m])).
+    set (ndq := with_queue nd0 (n_queue nd0 ++ [encode m])).
+    unfold get_node, put_node. cbn [g_sensors set_sensors]. change (n_id ndq) with (n_id nd0).
+    rewrite ID, zassoc_zset.
     destruct (Z.eqb_spec k (m_node m)) as [->|N].
-    - rewrite G0 in G. inversion G; subst nd0. eexists. split; [reflexivity|]. right. auto.
+    - rewrite G0 in G. inversion G; subst nd0. exists ndq. split; [reflexivity|]. right. auto.
     - exists nd. auto.
   Qed.
 
@@ -77,9 +80,9 @@ Section Sleep.
   Lemma line_cause_wake g l n : line_cause orc g l = CWake n <-> is_wake_line g l n.
   Proof.
     unfold line_cause, is_wake_line, msg_cause. split.
-    - destruct (decode l) as [m|]; [|discriminate]. destruct (gvalidate orc g m); [|discriminate].
+    - destruct (decode l) as [m|]; [|discriminate]. destruct (gvalidate orc g m) eqn:V; [|discriminate].
       destruct (wake_msg (tab g) m) eqn:W.
-      + intro H. inversion H. exists m. auto.
+      + intro H. inversion H. exists m. repeat split; auto.
       + destruct (report_msg (tab g) m); discriminate.
     - intros (m & -> & -> & -> & <-). reflexivity.
   Qed.
@@ -259,7 +262,7 @@ Section Sleep.
                  exists m, decode l = Some m /\ gvalidate orc g m = true /\
                            m_type m = 1 /\ m_node m = n /\ m_child m = c /\ m_sub m = vt).
     { intro l. unfold line_cause, msg_cause, report_msg. unfold tab. rewrite T. split.
-      - destruct (decode l) as [m|]; [|discriminate]. destruct (gvalidate orc g m); [|discriminate].
+      - destruct (decode l) as [m|]; [|discriminate]. destruct (gvalidate orc g m) eqn:V; [|discriminate].
         destruct (wake_msg (tab_of v) m); [discriminate|].
         pose proof (type_handler_set v (m_type m)) as TS. unfold is_hset in TS.
         destruct (type_handler (tab_of v) (m_type m)) as [[]|]; try discriminate.
@@ -267,8 +270,8 @@ Section Sleep.
       - intros (m & -> & -> & TY & <- & <- & <-).
         pose proof (type_handler_set v (m_type m)) as TS. rewrite TY in TS. unfold is_hset in TS.
         rewrite wake_msg_spec. unfold wake_spec. rewrite TY.
-        destruct (wake_sub v); cbn [Z.eqb andb]; rewrite TY;
-          destruct (type_handler (tab_of v) 1) as [[]|]; try discriminate; reflexivity. }
+        change (1 =? 3) with false. cbn [andb]. change (1 =? 1) with true in TS.
+        destruct (wake_sub v); rewrite TS; reflexivity. }
     unfold op_cause, processed, desire_cause. destruct o as [l| |s c0 vt0 v0 mt a|ns t0 v0 b|b].
     - destruct (cf_async (g_cf g)).
       + rewrite LC. split; [intros (m & H); exists l, m; auto|intros (l0 & m & E & H); inversion E; subst; eauto].
@@ -305,6 +308,16 @@ Section Sleep.
   Definition has_reported (nd : node) (c vt : Z) : Prop :=
     exists ch, zassoc c (n_children nd) = Some ch /\ zhas vt (c_values ch) = true.
 
+  Lemma run_IQ ops : forall g, cfg_ok (g_cf g) -> Inv orc g -> QInv g -> Forall op_ok ops ->
+    Inv orc (run orc clock g ops) /\ QInv (run orc clock g ops) /\ cfg_ok (g_cf (run orc clock g ops)).
+  Proof.
+    induction ops as [|o ops IH]; intros g C I Q F; [split; [exact I|split; [exact Q|exact C]]|].
+    inversion F as [|? ? O F']; subst. destruct (step_ok orc clock g o C I O) as [I1 C1].
+    pose proof (step_strans orc clock g o C I Q O) as ST.
+    pose proof (nodes_step_QInv _ _ _ (s_nodes _ _ _ _ ST) Q) as Q1.
+    apply (IH (step orc clock g o)); try assumption. rewrite C1; exact C.
+  Qed.
+
   Lemma run_node ops : forall g n nd,
     cfg_ok (g_cf g) -> Inv orc g -> QInv g -> Forall op_ok ops -> get_node g n = Some nd ->
     exists nd', get_node (run orc clock g ops) n = Some nd' /\
@@ -321,8 +334,8 @@ Section Sleep.
     - inversion F as [|? ? O F']; subst.
       destruct (step_ok orc clock g o C I O) as [I1 C1].
       pose proof (step_strans orc clock g o C I Q O) as ST.
-      pose proof (nodes_step_QInv _ _ _ (s_nodes _ _ _ _ _ ST) Q) as Q1.
-      destruct (s_nodes _ _ _ _ _ ST) as [A _].
+      pose proof (nodes_step_QInv _ _ _ (s_nodes _ _ _ _ ST) Q) as Q1.
+      destruct (s_nodes _ _ _ _ ST) as [A _].
       destruct (A _ _ G) as (nd1 & G1 & (_ & _ & S1 & _ & _ & D1 & K1)).
       assert (C1' : cfg_ok (g_cf (step orc clock g o))) by (rewrite C1; exact C).
       destruct (IH (step orc clock g o) n nd1 C1' I1 Q1 F' G1) as (nd' & G' & S' & R' & Z' & DA & DB).
@@ -362,6 +375,24 @@ Section Sleep.
   Proof.
     intros D m H [E1 E2]. destruct (flush_sets_are_desired t nd m H) as (v & DV & _). congruence.
   Qed.
+
+  Lemma In_zhas {A} k (a : A) l : In (k, a) l -> zhas k l = true.
+  Proof.
+    unfold zhas. induction l as [|[k' a'] l IH]; simpl; [contradiction|].
+    intros [H|H]; [inversion H; subst; rewrite Z.eqb_refl; reflexivity|].
+    destruct (Z.eqb k k'); [reflexivity|apply IH; exact H].
+  Qed.
+
+  (* a desired value for a value type the node has never reported is NOT sent *)
+  Lemma unreported_not_in_flush t nd c vt :
+    (forall k ch, In (k, ch) (n_children nd) -> c_id ch = c -> zhas vt (c_values ch) = false) ->
+    forall m, In m (desired_msgs t (init_smart_sleep nd)) -> ~ (m_child m = c /\ m_sub m = vt).
+  Proof.
+    intros NR m H [E1 E2]. apply In_desired_msgs in H as (k & ch & vt' & x & v & IN & INV & _ & ->).
+    cbn in E1, E2. subst vt'.
+    pose proof (In_zhas _ _ _ INV) as Z. rewrite (NR k ch IN E1) in Z. discriminate Z.
+  Qed.
+
 
   (* (a) .. (b): after an accepted set_child_value, at EVERY later state reached without a report of
      (n, c, vt) and without a new call for it, the desired value is still pending, requests are
@@ -437,7 +468,7 @@ Section Sleep.
       assert (HM : has_member (vt_internal_members (tab g0)) "I_REBOOT" = true).
       { pose proof FA0 as F'. unfold facts, tab_facts in F'.
         repeat match type of F' with _ && _ = true => apply andb_true_iff in F' as [F' ?] end. assumption. }
-      destruct (handle_set_known orc g0 m nd G0 ZH W HM) as (rep & HS & _).
+      destruct (handle_set_known g0 m nd G0 ZH W HM) as (rep & HS & _).
       unfold logic in E. rewrite D, V in E. cbn [negb] in E. rewrite TH in E. unfold run_handler in E.
       rewrite HS in E. cbn [bind] in E.
       set (ndu := update_child_value nd (m_child m) (m_sub m) (m_payload m)) in *.
@@ -492,15 +523,9 @@ Section Sleep.
   Proof.
     intros C I Q F G D QU g2.
     destruct (run_node ops g n nd C I Q F G) as (nd2 & G2 & _ & _ & _ & _ & DB).
-    assert (HK : exists K : Prop, K) by (exists True; exact Logic.I).
     exists nd2. split; [exact G2|]. pose proof (DB c vt QU D) as D2. split; [exact D2|]. split.
-    - assert (IQ : Inv orc g2 /\ QInv g2).
-      { clear - C I Q F. revert g C I Q F. induction ops as [|o ops IH]; intros g C I Q F; [split; assumption|].
-        inversion F as [|? ? O F']; subst. destruct (step_ok orc clock g o C I O) as [I1 C1].
-        pose proof (step_strans orc clock g o C I Q O) as ST.
-        pose proof (nodes_step_QInv _ _ _ (s_nodes _ _ _ _ _ ST) Q) as Q1.
-        apply (IH (step orc clock g o)); try assumption. rewrite C1; exact C. }
-      destruct IQ as [I2 Q2]. apply (flush_spec orc g2 n); assumption.
+    - destruct (run_IQ ops g C I Q F) as (I2 & Q2 & _). fold g2 in I2, Q2.
+      apply (flush_spec orc g2 n); assumption.
     - apply no_desired_no_set. exact D2.
   Qed.
 
@@ -519,15 +544,79 @@ Section Sleep.
     pose proof (set_child_value_trans orc g sid cid vt v mt a g1 FA I E) as T1.
     pose proof (nodes_step_QInv _ _ _ (t_nodes _ _ _ T1) Q) as Q1.
     assert (C1' : cfg_ok (g_cf g1)) by (rewrite C1; exact C).
-    assert (IQ : Inv orc g2 /\ QInv g2 /\ cfg_ok (g_cf g2)).
-    { unfold g2. clear - C1' I1 Q1 F. revert g1 C1' I1 Q1 F.
-      induction ops as [|o ops IH]; intros g C I Q F; [repeat split; assumption|].
-      inversion F as [|? ? O F']; subst. destruct (step_ok orc clock g o C I O) as [I1 C1].
-      pose proof (step_strans orc clock g o C I Q O) as ST.
-      pose proof (nodes_step_QInv _ _ _ (s_nodes _ _ _ _ _ ST) Q) as Q1.
-      apply (IH (step orc clock g o)); try assumption. rewrite C1; exact C. }
+    pose proof (run_IQ ops g1 C1' I1 Q1 F) as IQ. fold g2 in IQ.
     destruct IQ as (I2 & Q2 & C2). split.
     - intros k nd G. apply (flush_spec orc g2 k); assumption.
     - intro l. destruct (logic_total orc clock g2 l C2 I2) as (g3 & r & E3 & _). eauto.
   Qed.
+  (* ================================================================ C07.3  whole histories, with a ghost *)
+  (* erasable ghost: for every job in the queue, the state and the cause of the step that queued it *)
+  Definition origin := (gw * cause)%type.
+  Definition step_ghost (gs : gw * list origin) (o : op) : gw * list origin :=
+    let g := fst gs in
+    let g' := step orc clock g o in
+    (g', (match o with Pump => tl (snd gs) | _ => snd gs end) ++
+         repeat (g, op_cause orc g o) (List.length (g_jobs g') - List.length (jobs_base g o))).
+  Definition run_ghost (gs : gw * list origin) (ops : list op) : gw * list origin := fold_left step_ghost ops gs.
+
+  Lemma run_ghost_erase ops : forall gs, fst (run_ghost gs ops) = run orc clock (fst gs) ops.
+  Proof. induction ops as [|o ops IH]; intro gs; [reflexivity|]. simpl. rewrite IH. reflexivity. Qed.
+
+  Definition job_origin_ok (x : job) (og : origin) : Prop :=
+    match x with JSend s => allowed (fst og) (snd og) s | JLogic _ => True end.
+  Definition ghost_ok (gs : gw * list origin) : Prop := Forall2 job_origin_ok (g_jobs (fst gs)) (snd gs).
+
+  Lemma Forall2_tl {A B} (R : A -> B -> Prop) l1 l2 : Forall2 R l1 l2 -> Forall2 R (tl l1) (tl l2).
+  Proof. intros [|a b l1' l2' H F]; [constructor|exact F]. Qed.
+
+  Lemma Forall2_weaken {A B} (R S : A -> B -> Prop) l1 l2 :
+    (forall a b, R a b -> S a b) -> Forall2 R l1 l2 -> Forall2 S l1 l2.
+  Proof. intros H F. induction F; constructor; auto. Qed.
+
+  Lemma Forall2_repeat {A B} (R : A -> B -> Prop) l b : Forall (fun a => R a b) l -> Forall2 R l (repeat b (List.length l)).
+  Proof. induction 1; simpl; constructor; assumption. Qed.
+
+  Lemma step_ghost_ok gs o : cfg_ok (g_cf (fst gs)) -> Inv orc (fst gs) -> QInv (fst gs) -> op_ok o ->
+    ghost_ok gs -> ghost_ok (step_ghost gs o).
+  Proof.
+    intros C I Q O GH. destruct gs as [g og]. cbn [fst snd] in *. unfold ghost_ok, step_ghost. cbn [fst snd].
+    destruct (step_strans orc clock g o C I Q O) as [_ _ (j & J & G) _]. rewrite J.
+    rewrite app_length, Nat.add_comm, Nat.add_sub.
+    apply Forall2_app.
+    - unfold jobs_base. destruct o; try exact GH. apply Forall2_tl. exact GH.
+    - apply Forall2_repeat. eapply Forall_impl'; [|exact G].
+      intros [l|s] [H|H]; simpl; auto. destruct H as (l0 & _ & _ & H). discriminate H.
+  Qed.
+
+  Lemma run_ghost_ok ops : forall gs, cfg_ok (g_cf (fst gs)) -> Inv orc (fst gs) -> QInv (fst gs) ->
+    Forall op_ok ops -> ghost_ok gs -> ghost_ok (run_ghost gs ops).
+  Proof.
+    induction ops as [|o ops IH]; intros gs C I Q F GH; [exact GH|].
+    inversion F as [|? ? O F']; subst. simpl. apply IH; try assumption.
+    - cbn [step_ghost fst]. destruct (step_ok orc clock (fst gs) o C I O) as [_ C1]. rewrite C1. exact C.
+    - cbn [step_ghost fst]. exact (proj1 (step_ok orc clock (fst gs) o C I O)).
+    - cbn [step_ghost fst]. pose proof (step_strans orc clock (fst gs) o C I Q O) as ST.
+      exact (nodes_step_QInv _ _ _ (s_nodes _ _ _ _ ST) Q).
+    - apply step_ghost_ok; assumption.
+  Qed.
+
+  (* every history, both flavours: a queued send that the pump is about to hand to the transport was
+     queued by a step (state g0, cause cz) for which it was allowed: addressed to a node sleeping
+     in g0 only if it is a stream response or that step processed the node's wake-up announcement *)
+  Theorem queued_sends_have_allowed_origin cf ops :
+    cfg_ok cf -> Forall op_ok ops ->
+    let gs := run_ghost (gw_init cf, []) ops in
+    fst gs = run orc clock (gw_init cf) ops /\
+    Forall2 (fun x og => match x with
+                         | JSend s => to_sleeping_only_on_wake (fst og) (snd og) s
+                         | JLogic _ => True
+                         end) (g_jobs (fst gs)) (snd gs).
+  Proof.
+    intros C F gs. split; [apply run_ghost_erase|].
+    assert (GH : ghost_ok gs).
+    { apply run_ghost_ok; try assumption; cbn [fst]; [apply Inv_init|apply QInv_init|constructor]. }
+    unfold ghost_ok in GH. eapply Forall2_weaken; [|exact GH].
+    intros [l|s] og H; [exact Logic.I|]. apply allowed_string. exact H.
+  Qed.
+
 End Sleep.
